@@ -580,6 +580,17 @@ func (vc *VC) evalModEntry(e *SExpr, env *Env) (locs []ModLoc, err error) {
 			}
 			hn, hs := vc.elemHeap(tv)
 			return []ModLoc{{Heap: hn, Sort: hs}}, nil
+		case "allmaps":
+			tv := vc.tryType(e.Args[1], env)
+			if tv == nil {
+				return nil, fmt.Errorf("allmaps() needs a map type")
+			}
+			mt, ok := tv.Underlying().(*types.Map)
+			if !ok {
+				return nil, fmt.Errorf("allmaps() needs a map type")
+			}
+			dn, ds, vn, vs := vc.mapHeaps(mt)
+			return []ModLoc{{Heap: dn, Sort: ds}, {Heap: vn, Sort: vs}}, nil
 		case "mapof":
 			m := vc.eval(e.Args[1], env)
 			mt, ok := m.Ty.Underlying().(*types.Map)
